@@ -3,8 +3,8 @@
    LabelJson.v (label sets), SeriesIndex.v (request histories), Dates.v (days and time zones). *)
 From Coq Require Import List ZArith Bool String Permutation.
 From Qryn Require Import model.GoQuote model.LabelJson model.Fingerprint model.Labels
-  model.SeriesIndex model.Dates model.CacheKey
-  proofs.FingerprintProofs proofs.LabelsProofs proofs.JsonQuoteProofs proofs.SeriesIndexProofs proofs.DatesProofs proofs.CacheKeyProofs.
+  model.SeriesIndex model.Dates model.CacheKey model.ProtoLabels
+  proofs.FingerprintProofs proofs.LabelsProofs proofs.JsonQuoteProofs proofs.ProtoLabelsProofs proofs.SeriesIndexProofs proofs.DatesProofs proofs.CacheKeyProofs.
 Import ListNotations.
 Open Scope Z_scope.
 
@@ -22,6 +22,36 @@ Theorem fingerprint_protocol_independent : forall ch64 h128 fin p1 p2 ttl_hdr se
   series_fp ch64 h128 fin p1 ttl_hdr sent1 = series_fp ch64 h128 fin p2 ttl_hdr sent2.
 Proof. exact series_fp_independent. Qed.
 Print Assumptions fingerprint_protocol_independent.
+
+(* (a2') The decoders that build their own label list - InfluxDB metric lines, Datadog logs / Cloudflare logs /
+   metrics, Elasticsearch document / bulk, OTLP logs (model/ProtoLabels.v, tied to the code by the protocol
+   correspondence): two requests that differ only in the order the wire format, or the Go map the decoder
+   collects attributes in, presents the labels get the same fingerprint. For every choice of the hash oracles,
+   hence for both fingerprint types of the code (CityHash and Bernstein are two values of [fin]). *)
+Theorem fingerprint_wire_order_independent : forall ch64 h128 fin ttl_hdr w1 w2,
+  wire_reorder w1 w2 -> wire_fp ch64 h128 fin ttl_hdr w1 = wire_fp ch64 h128 fin ttl_hdr w2.
+Proof. exact wire_fp_reorder. Qed.
+Print Assumptions fingerprint_wire_order_independent.
+
+Theorem fingerprint_wire_order_independent_cityhash_and_bernstein : forall ch64 h128 ttl_hdr w1 w2,
+  wire_reorder w1 w2 ->
+  wire_fp ch64 h128 fin24 ttl_hdr w1 = wire_fp ch64 h128 fin24 ttl_hdr w2 /\
+  wire_fp ch64 h128 fin_djb ttl_hdr w1 = wire_fp ch64 h128 fin_djb ttl_hdr w2.
+Proof. exact wire_fp_reorder_both. Qed.
+Print Assumptions fingerprint_wire_order_independent_cityhash_and_bernstein.
+
+(* ... and across protocols the fingerprint is a function of the label multiset the decoder hands to onEntries *)
+Theorem fingerprint_depends_on_label_multiset_only : forall ch64 h128 fin ttl_hdr w1 w2,
+  Permutation (wire_labels w1) (wire_labels w2) -> wire_fp ch64 h128 fin ttl_hdr w1 = wire_fp ch64 h128 fin ttl_hdr w2.
+Proof. exact wire_fp_same_labels. Qed.
+Print Assumptions fingerprint_depends_on_label_multiset_only.
+
+(* the OTLP attribute map (resource, scope, record attributes through SanitizeKey, later wins, level) has
+   pairwise distinct names: the premise of the property's quantifier holds by construction there *)
+Theorem otlp_label_names_distinct : forall resource scope record severity,
+  NoDup (map fst (otlp_map resource scope record severity)).
+Proof. exact otlp_map_nodup. Qed.
+Print Assumptions otlp_label_names_distinct.
 
 (* (a3) CONDITIONAL. Different label multisets get different fingerprints on any family F of label
    lists on which the accumulation (sum, xor, product of pair hashes) and the final hash are
